@@ -100,10 +100,27 @@ pub open spec fn may_acquire(fs: Fs, h: Host, dir: PathId) -> bool {
     h.status matches Some(st) && (st.keyGuid matches Some(g) ==> !key_readable(fs, key_path(dir, g@)))
 }
 
-/// key-store naming invariant (ASSUMED where used; store_local_key is the only writer and files a key under its own guid):
-/// the file <g>.key holds a key whose guid is g. fetch_local_key itself does not compare the two.
-pub open spec fn names_agree(fs: Fs, dir: PathId) -> bool {
-    forall|g: Seq<char>, k: Key| #[trigger] reads_as(fs, key_path(dir, g), k) ==> k.guid@ == g
+/// C08 END TO END (pure): a guid the host regards as latched was attested by this agent, and attest_key's precondition held
+/// at that moment. In that file-system state -- and in every later one that differs from it only by writes to OTHER final
+/// names (lemma_other_writes_keep_the_key) -- a freshly started agent that is told the guid (a) finds the key readable, so
+/// fetch_key returns Ok (C08.fetch_key.readable_key_is_found), (b) reads back exactly that key, and (c) may NOT call
+/// acquire_key: its precondition is false, and the verified poll slice calls it only where the precondition holds.
+pub proof fn lemma_latched_key_is_recovered(fs: Fs, h: Host, dir: PathId, k: Key, h2: Host, st2: KeyStatus)
+    requires
+        may_attest(fs, h, dir, k), !io_read_fault(key_path(dir, k.guid@)),
+        h2.status == Some(st2), st2.keyGuid is Some, st2.keyGuid->0@ == k.guid@,
+    ensures
+        key_readable(fs, key_path(dir, k.guid@)),  // @C08.recover.latched_key_is_readable_after_restart
+        forall|k2: Key| reads_as(fs, key_path(dir, k.guid@), k2) ==> k2 == k,  // @C08.recover.the_key_read_back_is_the_attested_one
+        !may_acquire(fs, h2, dir),  // @C08.recover.no_new_key_may_be_requested
+{
+    lemma_restart_finds_the_stored_key(fs, dir, k);
+}
+
+/// the actor's initial state (key_keeper_wrapper.rs start_new: key None, state "Unknown", ids "", rules None)
+pub open spec fn initial_state() -> KkState {
+    KkState { key: None, state: "Unknown"@, ws_id: Seq::<char>::empty(), imds_id: Seq::<char>::empty(), hostga_id: Seq::<char>::empty(),
+              ws_rules: None, imds_rules: None, hostga_rules: None }
 }
 
 // ---- C09: postcondition of a status-carrying iteration, per endpoint ----
@@ -155,4 +172,35 @@ pub proof fn lemma_rules_converge(o: KkState, n: KkState, st: KeyStatus)
         assert(doc_rules(st, e) == rules_of_id(e, doc_rule_id(st, e)));
         assert(n.rules(e) == computed_opt(doc_rules(st, e)));
     }
+}
+
+/// the invariants hold initially (host contract: an empty rule id names no rules)
+pub proof fn lemma_initial_state_invariants()
+    requires forall|e: Endpoint| #[trigger] rules_of_id(e, Seq::<char>::empty()) is None,
+    ensures initial_state().disabled_means_no_key(), inv_rules(initial_state()),
+{
+    lits_status();
+    assert forall|e: Endpoint| #[trigger] initial_state().rules(e) == computed_opt(rules_of_id(e, initial_state().rule_id(e))) by {
+        assert(rules_of_id(e, Seq::<char>::empty()) is None);
+        match e { Endpoint::WireServer => {}, Endpoint::Imds => {}, Endpoint::HostGA => {} }
+    }
+}
+
+// ---- vacuity guard (DESIGN 2.4 (c)): the capability preconditions of the assumed host / actor stubs are satisfiable ----
+pub proof fn witness_capabilities_satisfiable(k: Key, dir: PathId, st: KeyStatus)
+    requires st.keyGuid is None,
+    ensures
+        exists|fs: Fs, h: Host| fs.safe() && #[trigger] may_attest(fs, h, dir, k) && may_acquire(fs, h, dir),
+        exists|fs: Fs, h: Host| fs.safe() && #[trigger] may_publish(fs, h, dir, k),
+{
+    let kp = key_path(dir, k.guid@);
+    let fs = Fs { m: Map::<PathId, FileState>::empty().insert(kp, FileState::Complete(json_of::<Key>(&k))) };
+    let h = Host { status: Some(st), acquired: Some(k), attested: Some(k), attest_calls: 0, acquire_calls: 1, completed: false };
+    axiom_key_json_round_trip(k);
+    lemma_key_path_not_tmp(dir, k.guid@);
+    assert(fs.state(kp) == FileState::Complete(json_of::<Key>(&k)));
+    assert(reads_as(fs, kp, k));
+    assert forall|p: PathId| #[trigger] fs.state(p) is Partial implies is_tmp(p) by { }
+    assert(fs.safe() && may_attest(fs, h, dir, k) && may_acquire(fs, h, dir));
+    assert(fs.safe() && may_publish(fs, h, dir, k));
 }
